@@ -579,23 +579,24 @@ Lemma slink_pop cf sy x r : slink opp cf sy (x :: r) -> slink opp cf sy r.
 Proof. intros (y & dead & A & B & C). exists y, (dead ++ [x]). rewrite <- app_assoc. auto. Qed.
 
 (** the oldest configuration recorded by a run that starts with the empty trace *)
-Definition first_cfg (tr' : list cfg) (st0 : list (option nat)) : Prop :=
-  tr' = [] \/ exists pre cf d, tr' = pre ++ [cf] /\ st0 = d ++ stack (cf_st cf) /\ hd None (stack (cf_st cf)) = Some (cf_corner cf).
+Definition first_cfg (tr' : list cfg) (st0 : list (option nat)) (sy0 : list Z) : Prop :=
+  tr' = [] \/ exists pre cf d, tr' = pre ++ [cf] /\ st0 = d ++ stack (cf_st cf) /\ hd None (stack (cf_st cf)) = Some (cf_corner cf) /\
+                              syms (cf_st cf) = sy0.
 
 Lemma outer_tr_ladj : forall fuel s tr s' tr', outer_tr c2v opp hid fuel s tr = EOk (s', tr') ->
   ladj opp tr -> lpre tr s ->
-  ladj opp tr' /\ lpre tr' s' /\ stack s' = [] /\ (tr = [] -> first_cfg tr' (stack s)).
+  ladj opp tr' /\ lpre tr' s' /\ stack s' = [] /\ (tr = [] -> first_cfg tr' (stack s) (syms s)) /\ (tr' = tr -> syms s' = syms s).
 Proof.
   induction fuel as [|k IH]; intros s tr s' tr' H A P; cbn [outer_tr] in H; [discriminate|].
   destruct (stack s) as [|top r] eqn:St.
-  - inversion H; subst. split; auto. split; auto. split; auto. intros ->. left. reflexivity.
+  - inversion H; subst. split; auto. split; auto. split; auto. split; auto. intros ->. left. reflexivity.
   - assert (Pop : lpre tr (with_stack s r)).
     { destruct tr as [|cf t]; cbn [lpre] in *; auto. cbn [with_stack syms stack]. rewrite St in P. eapply slink_pop; eauto. }
     assert (Dead : outer_tr c2v opp hid k (with_stack s r) tr = EOk (s', tr') ->
-              ladj opp tr' /\ lpre tr' s' /\ stack s' = [] /\ (tr = [] -> first_cfg tr' (top :: r))).
-    { intros H'. destruct (IH _ _ _ _ H' A Pop) as (B1 & B2 & B3 & B4). split; auto. split; auto. split; auto.
-      intros E. destruct (B4 E) as [X|(pre & cf & d & X1 & X2 & X3)]; [left; exact X|right].
-      cbn [with_stack stack] in X2. exists pre, cf, (top :: d). rewrite X2. auto. }
+              ladj opp tr' /\ lpre tr' s' /\ stack s' = [] /\ (tr = [] -> first_cfg tr' (top :: r) (syms s)) /\ (tr' = tr -> syms s' = syms s)).
+    { intros H'. destruct (IH _ _ _ _ H' A Pop) as (B1 & B2 & B3 & B4 & B4'). split; auto. split; auto. split; auto. split; [|exact B4'].
+      intros E. destruct (B4 E) as [X|(pre & cf & d & X1 & X2 & X3 & X4)]; [left; exact X|right].
+      cbn [with_stack stack syms] in X2, X4. exists pre, cf, (top :: d). rewrite X2. auto. }
     destruct top as [c|]; [|apply Dead; exact H].
     hstep H. hstep H; [apply Dead; exact H|].
     hstep H. match goal with X : inner_tr _ _ _ _ _ _ _ = EOk ?p |- _ => destruct p as [s1 tr1]; rename X into E1 end. cbn [fst snd] in H.
@@ -603,36 +604,39 @@ Proof.
     { destruct tr as [|cf t]; cbn [lpre] in *; auto. }
     assert (P1 : lpre tr1 s1).
     { destruct B1 as [(-> & ->)|B1]; auto. destruct tr1 as [|cf1 t1]; cbn [lpost lpre] in *; [contradiction|auto]. }
-    destruct (IH _ _ _ _ H A1 P1) as (B2 & B3 & B4 & B5). split; auto. split; auto. split; auto.
-    intros ->. rewrite app_nil_r in C1. subst tr1.
+    assert (Ext : forall fuel0 s0 t0 s0' t0', outer_tr c2v opp hid fuel0 s0 t0 = EOk (s0', t0') -> exists p, t0' = p ++ t0).
+    { clear. induction fuel0 as [|f IHf]; intros s0 t0 s0' t0' H0; cbn [outer_tr] in H0; [discriminate|].
+      destruct (stack s0) as [|[c0|] r0]; [inversion H0; subst; exists []; reflexivity| |apply (IHf _ _ _ _ H0)].
+      hstep H0. hstep H0; [apply (IHf _ _ _ _ H0)|]. hstep H0.
+      match goal with X : inner_tr _ _ _ _ _ _ _ = EOk ?p |- _ => destruct p as [s1 tr1]; rename X into E1 end. cbn [fst snd] in H0.
+      destruct (IHf _ _ _ _ H0) as (p & ->).
+      assert (Ei : forall k s c tr s' tr', inner_tr c2v opp hid k s c tr = EOk (s', tr') -> exists p, tr' = p ++ tr).
+      { clear. induction k as [|k IHk]; intros s c tr s' tr' H; cbn [inner_tr] in H; [inversion H; subst; exists []; reflexivity|].
+        destruct c as [c|]; [|discriminate]. cbv zeta in H.
+        assert (Stp : forall s3 o, inner_tr c2v opp hid k s3 o (mk_cfg c s :: tr) = EOk (s', tr') -> exists p, tr' = p ++ tr).
+        { intros s3 o E. destruct (IHk _ _ _ _ _ E) as (p & ->). exists (p ++ [mk_cfg c s]). rewrite <- app_assoc. reflexivity. }
+        repeat (hstep H; try (apply (Stp _ _ H)); try (inversion H; subst; exists [mk_cfg c s]; reflexivity)). }
+      destruct (Ei _ _ _ _ _ _ E1) as (p1 & ->). exists (p ++ p1). rewrite app_assoc. reflexivity. }
+    destruct (IH _ _ _ _ H A1 P1) as (B2 & B3 & B4 & B5 & B6). split; auto. split; auto. split; auto.
+    destruct (Ext _ _ _ _ _ H) as (p & Ep).
     destruct (Nat.eq_dec (NF c2v) 0) as [Z0|NZ].
-    + rewrite Z0 in E1. cbn [inner_tr] in E1. inversion E1; subst. rewrite <- St. apply B5. reflexivity.
-    + destruct (C2 NZ) as (pre' & ->).
-      (* tr' extends pre' ++ [mk_cfg c s] *)
-      assert (Ext : forall fuel0 s0 t0 s0' t0', outer_tr c2v opp hid fuel0 s0 t0 = EOk (s0', t0') -> exists p, t0' = p ++ t0).
-      { clear. induction fuel0 as [|f IHf]; intros s0 t0 s0' t0' H0; cbn [outer_tr] in H0; [discriminate|].
-        destruct (stack s0) as [|[c0|] r0]; [inversion H0; subst; exists []; reflexivity| |apply (IHf _ _ _ _ H0)].
-        hstep H0. hstep H0; [apply (IHf _ _ _ _ H0)|]. hstep H0.
-        match goal with X : inner_tr _ _ _ _ _ _ _ = EOk ?p |- _ => destruct p as [s1 tr1]; rename X into E1 end. cbn [fst snd] in H0.
-        destruct (IHf _ _ _ _ H0) as (p & ->).
-        assert (Ei : forall k s c tr s' tr', inner_tr c2v opp hid k s c tr = EOk (s', tr') -> exists p, tr' = p ++ tr).
-        { clear. induction k as [|k IHk]; intros s c tr s' tr' H; cbn [inner_tr] in H; [inversion H; subst; exists []; reflexivity|].
-          destruct c as [c|]; [|discriminate]. cbv zeta in H.
-          assert (Stp : forall s3 o, inner_tr c2v opp hid k s3 o (mk_cfg c s :: tr) = EOk (s', tr') -> exists p, tr' = p ++ tr).
-          { intros s3 o E. destruct (IHk _ _ _ _ _ E) as (p & ->). exists (p ++ [mk_cfg c s]). rewrite <- app_assoc. reflexivity. }
-          repeat (hstep H; try (apply (Stp _ _ H)); try (inversion H; subst; exists [mk_cfg c s]; reflexivity)). }
-        destruct (Ei _ _ _ _ _ _ E1) as (p1 & ->). exists (p ++ p1). rewrite app_assoc. reflexivity. }
-      destruct (Ext _ _ _ _ _ H) as (p & ->). right. exists (p ++ pre'), (mk_cfg c s), []. rewrite <- app_assoc.
-      cbn [cf_st cf_corner app]. rewrite St. auto.
+    + rewrite Z0 in E1. cbn [inner_tr] in E1. inversion E1; subst s1 tr1. split; [|exact B6].
+      intros Et. rewrite <- St. apply B5. exact Et.
+    + destruct (C2 NZ) as (pre' & Ep1). split.
+      * intros ->. rewrite app_nil_r in C1. right. exists (p ++ pre'), (mk_cfg c s), []. rewrite Ep, C1, Ep1, <- app_assoc.
+        cbn [cf_st cf_corner app]. rewrite St. auto.
+      * intros Q. exfalso. rewrite Ep, C1, Ep1 in Q. apply (f_equal (@length _)) in Q. rewrite !app_length in Q. cbn in Q. lia.
 Qed.
 
 Lemma from_corner_tr_ladj s c s' tr' : from_corner_tr c2v opp hid s (Some c) [] = EOk (s', tr') ->
   ladj opp tr' /\ lpre tr' s' /\ stack s' = [] /\
-  (tr' = [] \/ exists pre cf, tr' = pre ++ [cf] /\ stack (cf_st cf) = [Some (cf_corner cf)]).
+  (tr' = [] \/ exists pre cf, tr' = pre ++ [cf] /\ stack (cf_st cf) = [Some (cf_corner cf)] /\ syms (cf_st cf) = syms s) /\
+  (tr' = [] -> syms s' = syms s).
 Proof.
-  intros H. unfold from_corner_tr in H. destruct (outer_tr_ladj _ _ _ _ _ H) as (A & B & C & D); cbn [ladj gadj lpre]; auto.
-  split; auto. split; auto. split; auto.
-  destruct (D eq_refl) as [X|(pre & cf & d & X1 & X2 & X3)]; [left; exact X|right]. exists pre, cf. split; auto.
+  intros H. unfold from_corner_tr in H. destruct (outer_tr_ladj _ _ _ _ _ H) as (A & B & C & D & D'); cbn [ladj gadj lpre]; auto.
+  split; auto. split; auto. split; auto. split; [|exact D'].
+  destruct (D eq_refl) as [X|(pre & cf & d & X1 & X2 & X3 & X4)]; [left; exact X|right]. exists pre, cf. split; auto.
+  cbn [with_stack syms] in X4. split; [|exact X4].
   cbn [with_stack stack] in X2. destruct d as [|d0 d]; cbn [app] in X2.
   - rewrite <- X2 in X3 |- *. cbn in X3. inversion X3; subst. reflexivity.
   - inversion X2 as [[Q1 Q2]]. destruct d; cbn in Q2; [|discriminate]. rewrite <- Q2 in X3. cbn in X3. discriminate.
@@ -650,8 +654,9 @@ Proof. intros [X|(A & B & C)] E; [left; exact X|right]. split; auto. split; auto
 
 Lemma from_corner_run1 s c s' tr' : from_corner_tr c2v opp hid s (Some c) [] = EOk (s', tr') -> run1 tr' s'.
 Proof.
-  intros H. destruct (from_corner_tr_ladj _ _ _ _ H) as (A & B & C & [D|D]); [left; exact D|right].
-  split; auto. split; auto. destruct tr' as [|cf t]; [destruct D as (pre & cf & X & _); destruct pre; discriminate|].
+  intros H. destruct (from_corner_tr_ladj _ _ _ _ H) as (A & B & C & [D|D] & _); [left; exact D|right].
+  split; auto. split; [|destruct D as (pre & cf & X1 & X2 & _); eauto].
+  destruct tr' as [|cf t]; [destruct D as (pre & cf & X & _); destruct pre; discriminate|].
   cbn [lpost lpre with_stack syms stack] in *. rewrite C in B. exact B.
 Qed.
 
@@ -738,5 +743,167 @@ Proof.
     rewrite El in Ho.
     destruct (IH A' cf r' eq_refl ltac:(lia) Ho) as (G & Z0).
     split; [|lia]. cbn [gadj]. split; [|exact G]. unfold sstep. apply M2. lia.
+Qed.
+Local Close Scope Z_scope.
+
+(** * SEVERAL runs.  The trace is only accumulated (writer): a run started on a non-empty trace is the run started on the
+    empty trace, appended.  [madj t R]: the trace [t] (newest first) consists of R runs; inside a run every step is a link,
+    between two runs everything left on the stack was popped and the new run starts with the stack [start corner]. *)
+Section Writer.
+Variables (c2v : list nat) (opp : list (option nat)) (hid : list (option nat)).
+Definition app_tr (t : list cfg) (x : est * list cfg) : est * list cfg := (fst x, snd x ++ t).
+
+Ltac wstep :=
+  match goal with
+  | |- ebind ?e _ = emap _ (ebind ?e _) => destruct e; cbn [ebind emap]; try reflexivity
+  | |- (if ?b then _ else _) = emap _ (if ?b then _ else _) => destruct b
+  | |- match ?l with [] => _ | _ :: _ => _ end = emap _ (match ?l with [] => _ | _ :: _ => _ end) =>
+      destruct l; cbn [emap app_tr fst snd]; try reflexivity
+  end.
+
+Lemma inner_tr_app : forall k s c t1 t2,
+  inner_tr c2v opp hid k s c (t1 ++ t2) = emap (app_tr t2) (inner_tr c2v opp hid k s c t1).
+Proof.
+  induction k as [|k IH]; intros s c t1 t2; cbn [inner_tr]; [reflexivity|].
+  destruct c as [c|]; [|reflexivity]. cbv zeta.
+  repeat first [ apply (IH _ _ (mk_cfg c s :: t1) t2) | reflexivity | wstep ].
+Qed.
+
+Lemma outer_tr_app : forall fuel s t1 t2,
+  outer_tr c2v opp hid fuel s (t1 ++ t2) = emap (app_tr t2) (outer_tr c2v opp hid fuel s t1).
+Proof.
+  induction fuel as [|k IH]; intros s t1 t2; cbn [outer_tr]; [reflexivity|].
+  destruct (stack s) as [|[c|] r]; [reflexivity| |apply IH].
+  destruct (eget (vf s) (c / 3)) as [b| | |]; cbn [ebind emap]; try reflexivity.
+  destruct b; [apply IH|].
+  rewrite inner_tr_app.
+  destruct (inner_tr c2v opp hid (NF c2v) s (Some c) t1) as [[s1 tr1]| | |]; cbn [ebind emap app_tr fst snd]; try reflexivity. apply IH.
+Qed.
+
+Lemma from_corner_tr_app s c t s' t' : from_corner_tr c2v opp hid s c t = EOk (s', t') ->
+  exists p, from_corner_tr c2v opp hid s c [] = EOk (s', p) /\ t' = p ++ t.
+Proof.
+  unfold from_corner_tr. intros H. change t with ([] ++ t) in H. rewrite outer_tr_app in H.
+  destruct (outer_tr c2v opp hid (outer_fuel c2v) (with_stack s [c]) []) as [[s1 p]| | |]; cbn [emap app_tr fst snd] in H; try discriminate.
+  inversion H; subst. exists p. auto.
+Qed.
+End Writer.
+
+Inductive madj (opp : list (option nat)) : list cfg -> nat -> Prop :=
+| madj_one cf0 : stack (cf_st cf0) = [Some (cf_corner cf0)] -> madj opp [cf0] 1
+| madj_link cf' cf r R : lstep opp cf cf' -> madj opp (cf :: r) R -> madj opp (cf' :: cf :: r) R
+| madj_new cf' cf r R : slink opp cf (syms (cf_st cf')) [] -> stack (cf_st cf') = [Some (cf_corner cf')] ->
+    madj opp (cf :: r) R -> madj opp (cf' :: cf :: r) (S R).
+
+Lemma ladj_madj1 opp : forall pre cf0, ladj opp (pre ++ [cf0]) -> stack (cf_st cf0) = [Some (cf_corner cf0)] -> madj opp (pre ++ [cf0]) 1.
+Proof.
+  induction pre as [|a pre IH]; intros cf0 A S0; cbn [app] in *; [constructor; auto|].
+  destruct (pre ++ [cf0]) as [|b l] eqn:E; [destruct pre; discriminate|].
+  cbn [ladj gadj] in A. destruct A as [A1 A2]. apply madj_link; auto. rewrite <- E. apply IH; auto. rewrite E. exact A2.
+Qed.
+
+Lemma madj_app opp : forall pre cf0 cfN r R, ladj opp (pre ++ [cf0]) -> stack (cf_st cf0) = [Some (cf_corner cf0)] ->
+  madj opp (cfN :: r) R -> slink opp cfN (syms (cf_st cf0)) [] -> madj opp ((pre ++ [cf0]) ++ cfN :: r) (S R).
+Proof.
+  induction pre as [|a pre IH]; intros cf0 cfN r R A S0 M L; cbn [app] in *; [apply madj_new; auto|].
+  destruct (pre ++ [cf0]) as [|b l] eqn:E; [destruct pre; discriminate|].
+  cbn [ladj gadj] in A. destruct A as [A1 A2]. cbn [app]. apply madj_link; auto.
+  change (b :: l ++ cfN :: r) with ((b :: l) ++ cfN :: r). rewrite <- E. apply IH; auto. rewrite E. exact A2.
+Qed.
+
+Section RunsM.
+Variables (c2v : list nat) (opp : list (option nat)) (hid : list (option nat)).
+
+Definition runm (tr : list cfg) (s : est) (bits : list bool) : Prop :=
+  tr = [] \/ exists R, madj opp tr R /\ R <= length bits /\ lpost opp tr (with_stack s []).
+Definition runm_4 (st : eres (est * list bool * list nat * list cfg)) : Prop :=
+  forall s bits inits tr, st = EOk (s, bits, inits, tr) -> runm tr s bits.
+
+Lemma runm_same tr s s' bits b : runm tr s bits -> syms s' = syms s -> runm tr s' (b :: bits).
+Proof.
+  intros [X|(R & A & B & C)] E; [left; exact X|right]. exists R. split; auto. split; [cbn [length]; lia|].
+  destruct tr; auto. cbn [lpost with_stack syms stack] in *. rewrite E. auto.
+Qed.
+
+Lemma from_corner_runm s c s' tr tr' bits b : from_corner_tr c2v opp hid s (Some c) tr = EOk (s', tr') ->
+  runm tr s bits -> runm tr' s' (b :: bits).
+Proof.
+  intros H Rm. destruct (from_corner_tr_app _ _ _ _ _ _ _ _ H) as (p & Hp & ->).
+  destruct (from_corner_tr_ladj _ _ _ _ _ _ _ Hp) as (A & B & C & D & D').
+  destruct D as [->|(pre & cf0 & -> & S0 & Y0)].
+  - cbn [app]. apply (runm_same tr s); auto.
+  - assert (Lp : lpost opp ((pre ++ [cf0]) ++ tr) (with_stack s' [])).
+    { destruct (pre ++ [cf0]) as [|cf t] eqn:E; [destruct pre; discriminate|]. cbn [app lpost lpre with_stack syms stack] in *. rewrite C in B. exact B. }
+    right. destruct Rm as [->|(R & M & LR & LP)].
+    + exists 1. rewrite app_nil_r in *. split; [apply ladj_madj1; auto|]. split; [cbn [length]; lia|exact Lp].
+    + exists (S R). destruct tr as [|cfN r]; [inversion M|]. split; [|split; [cbn [length]; lia|exact Lp]].
+      apply madj_app; auto. cbn [lpost with_stack syms stack] in LP. rewrite Y0. exact LP.
+Qed.
+
+Lemma ec_corner_tr_runm st c_id : runm_4 st -> runm_4 (ec_corner_tr c2v opp hid st c_id).
+Proof.
+  intros Co s' bits' inits' tr' H. unfold ec_corner_tr in H.
+  destruct st as [[[[s bits] inits] tr]| | |]; cbn [ebind] in H; try discriminate. specialize (Co s bits inits tr eq_refl).
+  hstep H. hstep H. { inversion H; subst; auto. }
+  destruct (is_degenerated c2v (c_id / 3)). { inversion H; subst; auto. }
+  hstep H. match goal with X : find_init _ _ _ _ = EOk ?p |- _ => destruct p as [start interior] end. destruct interior.
+  - repeat hstep H.
+    match type of H with match ?o with Some _ => _ | None => _ end = _ => destruct o as [oc|] end.
+    + hstep H. hstep H. { inversion H; subst. eapply runm_same; eauto. }
+      hstep H. match goal with X : from_corner_tr _ _ _ _ _ _ = EOk ?p |- _ => destruct p as [s1 tr1]; cbn [fst snd] in H; inversion H; subst;
+        eapply from_corner_runm; [exact X|]; destruct Co as [Q|(R & Q1 & Q2 & Q3)]; [left; exact Q|right; exists R; split; auto; split; auto;
+        destruct tr; auto] end.
+    + inversion H; subst. eapply runm_same; eauto.
+  - hstep H. hstep H.
+    match goal with X : from_corner_tr _ _ _ _ _ _ = EOk ?p, X2 : encode_hole _ _ _ _ _ _ = EOk _ |- _ =>
+      destruct p as [s1 tr1]; cbn [fst snd] in H; inversion H; subst;
+      eapply from_corner_runm; [exact X|]; apply encode_hole_stack' in X2; destruct X2 as [_ X2];
+      destruct Co as [Q|(R & Q1 & Q2 & Q3)]; [left; exact Q|right; exists R; split; auto; split; auto;
+      destruct tr; auto; cbn [lpost with_stack syms stack] in *; rewrite X2; auto] end.
+Qed.
+
+Lemma ec_fold_tr_runm l : forall st, runm_4 st -> runm_4 (fold_left (ec_corner_tr c2v opp hid) l st).
+Proof. induction l as [|a l IH]; intros st Co; cbn [fold_left]; auto. apply IH. apply ec_corner_tr_runm. auto. Qed.
+End RunsM.
+
+(** the trace of any encoding as a sequence of at most |start-face bits| runs (newest first: [t], [tr = rev t]) *)
+Theorem trace_runs c2v opp nv niso ndeg o tr : eb_encode_tr c2v opp nv niso ndeg = EOk (o, tr) ->
+  exists t, tr = rev t /\
+   (t = [] \/ exists R, madj opp t R /\ R <= length (o_bits o) /\ exists cf r, t = cf :: r /\ slink opp cf (rev (o_syms o)) []).
+Proof.
+  unfold eb_encode_tr. intros H. destruct (NF c2v =? ndeg); [discriminate|].
+  destruct (find_holes c2v opp nv) as [[hid vh]| | |]; cbn [ebind] in H; try discriminate.
+  destruct (fold_left (ec_corner_tr c2v opp hid) (seq 0 (NC c2v)) (EOk (init_est (NF c2v) nv vh, [], [], []))) as [[[[s bits] inits] tr0]| | |] eqn:Ef;
+    cbn [ebind] in H; try discriminate.
+  inversion H; subst o tr. clear H. cbn [o_bits o_syms] in *. exists tr0. split; auto.
+  assert (R : runm_4 opp (EOk (s, bits, inits, tr0))).
+  { rewrite <- Ef. apply ec_fold_tr_runm. intros s0 b0 i0 t0 X. inversion X; subst. left. auto. }
+  destruct (R s bits inits tr0 eq_refl) as [X|(Rn & A & B & C)]; [left; exact X|right].
+  exists Rn. split; auto. split; [rewrite rev_length; auto|]. destruct tr0 as [|cf r]; cbn [lpost] in C; [contradiction|].
+  exists cf, r. split; auto. cbn [with_stack syms stack] in C. rewrite rev_involutive. exact C.
+Qed.
+
+(** ** accounting over several runs: the potential  ideal - |stack| + (#runs - 1)  never decreases, starts at 0, and ends at
+    <= 0 when  ideal (all symbols) = 1 - #bits;  then nothing was ever popped dead *)
+Definition mstep (opp : list (option nat)) (cf cf' : cfg) : Prop :=
+  sstep opp cf cf' \/
+  (pushed opp (hd 0%Z (syms (cf_st cf'))) (cf_corner cf) (stack (cf_st cf)) = [] /\ stack (cf_st cf') = [Some (cf_corner cf')]).
+
+Local Open Scope Z_scope.
+Lemma madj_strict opp : forall t R, madj opp t R -> forall cfN r, t = cfN :: r ->
+  slack cfN + Z.of_nat R - 1 <= 0 -> syms (cf_st (last t cfN)) = [] ->
+  gadj (mstep opp) t /\ slack cfN + Z.of_nat R - 1 = 0.
+Proof.
+  induction 1 as [cf0 S0|cf' cf r R L M IH|cf' cf r R L S0 M IH]; intros cfN r0 E Hn Ho; inversion E; subst cfN r0; clear E.
+  - cbn [last] in Ho. unfold slack in *. rewrite Ho, S0 in *. cbn [ideal length gadj] in *. split; auto.
+  - destruct (slink_slack _ _ _ _ L) as (M1 & M2). fold (slack cf') in M1, M2.
+    change (last (cf' :: cf :: r) cf') with (last (cf :: r) cf') in Ho. rewrite (last_cons_default r cf cf' cf) in Ho.
+    destruct (IH cf r eq_refl ltac:(lia) Ho) as (G & Z0).
+    split; [|lia]. cbn [gadj]. split; [|exact G]. left. unfold sstep. apply M2. lia.
+  - destruct (slink_slack _ _ _ _ L) as (M1 & M2). cbn [length] in M1, M2.
+    assert (S1 : slack cf' = ideal (syms (cf_st cf')) - 1) by (unfold slack; rewrite S0; reflexivity).
+    change (last (cf' :: cf :: r) cf') with (last (cf :: r) cf') in Ho. rewrite (last_cons_default r cf cf' cf) in Ho.
+    destruct (IH cf r eq_refl ltac:(lia) Ho) as (G & Z0).
+    split; [|lia]. cbn [gadj]. split; [|exact G]. right. split; [symmetry; apply M2; lia|exact S0].
 Qed.
 Local Close Scope Z_scope.
